@@ -195,6 +195,15 @@ func execHuge(c hx.Case, res *hx.Result) {
 			res.Tags = append(res.Tags, "panic")
 			break
 		}
+		// the Model does not run cases of this size: its driver answers "ok" to every line of a huge case, and so
+		// does this executor (what was returned is in the oracle's message when it objects) - a replay of a huge
+		// case therefore compares equal unless an operation panics
+		if out != "bad-op" {
+			if res.BadOp == i {
+				res.What += "; returned: " + out
+			}
+			out = "ok"
+		}
 		res.Outs = append(res.Outs, out)
 	}
 	res.Nontrivial = peak >= 4
